@@ -182,9 +182,10 @@ fn vf_pattern_block_b(pattern: &str, mask0: NetworkFilterMask, fs0: usize, fe0: 
     ensures
         // a left-anchored body that is only a scheme is consumed (it restricts the scheme bits instead)
         r.2@ == (if mask0.has(NetworkFilterMask::IS_LEFT_ANCHOR) && is_scheme_only(pattern.spec_bytes().subrange(fs0 as int, fe0 as int)) { (fe0 as int, fe0 as int) } else { (fs0 as int, fe0 as int) }), // OBL C02.parse.body.scheme_only
-        // the pattern body kept for matching is that piece of the pattern text (lower-cased unless $match-case)
+        // the pattern body kept for matching is that piece of the pattern text: as written for a full regex (its case is handled when it is
+        // compiled, lower-casing `\D` would make it `\d`) and under $match-case, lower-cased otherwise
         r.1 is Some <==> r.2@.1 > r.2@.0, // OBL C02.parse.body.present
-        r.1 is Some ==> body_is(r.1->Some_0, pattern, r.2@.0, r.2@.1, r.0.has(NetworkFilterMask::MATCH_CASE)), // OBL C02.parse.body.text
+        r.1 is Some ==> body_is(r.1->Some_0, pattern, r.2@.0, r.2@.1, r.0.has(NetworkFilterMask::MATCH_CASE) || r.0.has(NetworkFilterMask::IS_COMPLETE_REGEX)), // OBL C02.parse.body.text
 {
     let mut mask = mask0;
     let mut filter_index_start = fs0;
@@ -227,7 +228,7 @@ fn vf_pattern_block_b(pattern: &str, mask0: NetworkFilterMask, fs0: usize, fe0: 
         if r.1 is Some {
             assert(r.1->Some_0 == filter->Some_0);
             assert(r.0 == mask);
-            assert(body_is(r.1->Some_0, pattern, filter_index_start as int, filter_index_end as int, r.0.has(NetworkFilterMask::MATCH_CASE))); // OBL C02.parse.body.text
+            assert(body_is(r.1->Some_0, pattern, filter_index_start as int, filter_index_end as int, r.0.has(NetworkFilterMask::MATCH_CASE) || r.0.has(NetworkFilterMask::IS_COMPLETE_REGEX))); // OBL C02.parse.body.text
         }
     }
     r
